@@ -63,8 +63,10 @@ Clauses(r, gs, cs, n) ==
                 /\ \A s \in (Len(gs) + 1)..Len(newg) : r.views[s] = newg[s].view
         ntype == /\ Len(r.types) = Len(newg)
                  /\ \A s \in (Len(gs) + 1)..Len(newg) : r.types[s] = newg[s].type
+        (* what a lookup shows: the value 4 stands for None, which a lookup cannot tell from "never set" (0) *)
         qmd == /\ Len(r.lookups) = Len(newg)
-               /\ \A s \in 1..Len(newg) : r.lookups[s] = newg[s].qmd
+               /\ \A s \in 1..Len(newg) :
+                     r.lookups[s] = [i \in 1..Len(newg[s].qmd) |-> IF newg[s].qmd[i] = 4 THEN 0 ELSE newg[s].qmd[i]]
         isval == a.act \in {"ValueStart", "ValueSync"}
         noexec == isval \/ r.newexec = <<>>
         onecall == ~isval \/ Len(r.newexec) = 1
